@@ -18,36 +18,49 @@ def check_original(run, rule):
     is_prop = any(isinstance(d, ast.Name) and d.id == "property" for d in fi.decorators)
     run.ob(rule, "node.Node.original/is-property", is_prop, f"{nm.rel}:{fi.lineno}", "Node.original is a read-only property",
            "not decorated with @property: scan_node reads hit.original as an attribute", mech="decorator census")
-    # shape: if self.parent: return self.parent.value[self.start:self.end]; return self.value
-    ok_slice = ok_else = False
-    guard_ok = False
+    # every return of the property, with its reaching condition: the slice of the parent's value is returned exactly when there is
+    # a parent, the node's own value exactly when there is none (any control-flow spelling: if/else either way round, IfExp)
+    from . import guards as G
+    HAS = ("atom", "truthy:SELF.parent")
+    kinds = {"slice": [], "value": [], "other": []}
+
+    def classify(v):
+        if isinstance(v, ast.Subscript) and isinstance(v.slice, ast.Slice):
+            lo, hi = v.slice.lower, v.slice.upper
+            if norm_src(v.value) == "SELF.parent.value" and lo is not None and hi is not None and v.slice.step is None and \
+                    norm_src(lo) == "SELF.start" and norm_src(hi) == "SELF.end":
+                return "slice"
+        if norm_src(v) == "SELF.value":
+            return "value"
+        return "other"
+    az0 = G.Atomizer(rename={slf: "SELF"})
+    isnone = az0.formula(common.spec_expr("SELF.parent is None"))
+    assuming = G.f_and(G.f_or(G.f_not(HAS), G.f_not(isnone)), G.f_or(HAS, isnone))
     for n in own_nodes(fi.node):
         if isinstance(n, ast.Return) and n.value is not None:
-            v = n.value
-            if isinstance(v, ast.Subscript) and isinstance(v.slice, ast.Slice):
-                base_ok = norm_src(v.value) == f"{slf}.parent.value"
-                lo, hi = v.slice.lower, v.slice.upper
-                if base_ok and lo is not None and hi is not None and v.slice.step is None and \
-                        norm_src(lo) == f"{slf}.start" and norm_src(hi) == f"{slf}.end":
-                    ok_slice = True
-                    # guarded by self.parent truthiness / is not None
-                    for p in common.parents(n):
-                        if isinstance(p, ast.If) and any(x is n for b in p.body for x in ast.walk(b)):
-                            t = norm_src(p.test)
-                            if t in (f"{slf}.parent", f"{slf}.parent is not None"):
-                                guard_ok = True
-            elif norm_src(v) == f"{slf}.value":
-                ok_else = True
-            elif isinstance(v, ast.IfExp):
-                t = norm_src(v.test)
-                if t in (f"{slf}.parent", f"{slf}.parent is not None") and norm_src(v.body) == f"{slf}.parent.value[{slf}.start:{slf}.end]" \
-                        and norm_src(v.orelse) == f"{slf}.value":
-                    ok_slice = ok_else = guard_ok = True
+            env = common.block_env(fi.body, n) or {}
+            az = G.Atomizer(rename={slf: "SELF"}, subst=env)
+            pc = G.reach(fi.body, n, az)
+            if pc is None:
+                continue
+            v = az.inline(n.value)
+            if isinstance(v, ast.IfExp):
+                c = az.formula(v.test)
+                kinds[classify(v.body)].append(G.f_and(pc, c))
+                kinds[classify(v.orelse)].append(G.f_and(pc, G.f_not(c)))
+            else:
+                kinds[classify(v)].append(pc)
+    f_slice = G.f_or(*kinds["slice"]) if kinds["slice"] else G.F
+    f_value = G.f_or(*kinds["value"]) if kinds["value"] else G.F
+    f_other = G.f_or(*kinds["other"]) if kinds["other"] else G.F
+    no_other = not G.satisfiable(f_other) if kinds["other"] else True
+    ok_slice = guard_ok = bool(kinds["slice"]) and G.equivalent(f_slice, HAS, assuming=assuming)[0] and no_other
+    ok_else = bool(kinds["value"]) and G.equivalent(f_value, G.f_not(HAS), assuming=assuming)[0] and no_other
     run.ob(rule, "node.Node.original/slice", ok_slice and guard_ok, f"{nm.rel}:{fi.lineno}",
            "with a parent, original is parent.value[start:end]",
-           "Node.original does not return self.parent.value[self.start:self.end] under `if self.parent`", mech="return-shape match")
+           "Node.original does not return self.parent.value[self.start:self.end] exactly when self.parent is set", mech="reaching conditions of the returns, by truth table")
     run.ob(rule, "node.Node.original/root", ok_else, f"{nm.rel}:{fi.lineno}", "without a parent, original is the node's own value",
-           "Node.original does not fall back to self.value", mech="return-shape match")
+           "Node.original does not return self.value exactly when there is no parent", mech="reaching conditions of the returns, by truth table")
 
 
 def check_shift_nodes(run, rule):
